@@ -5,7 +5,7 @@ package quic
 //vx:reach Harness_C01_send_completion C01.compl.completed C01.compl.retransmitted
 //vx:param all maxdepth=2000
 //vx:param quick steps=4
-//vx:param thorough steps=5
+//vx:param thorough steps=4
 //vx:reach Harness_C01_send C01.send.popped C01.send.retransmitted C01.send.fin C01.send.acked C01.send.completed C01.send.blocked-by-window C01.send.drained
 
 import (
